@@ -95,7 +95,7 @@ def own_rules(ctx, res, F, e1, tag):
                 if st["s"] == "assign" and st["rvalue"]["rv"] == "cast" and \
                         st["rvalue"]["kind"] in ("PointerExposeProvenance", "Transmute"):
                     n_expose += 1
-    res.count("own-ptr-int" + tag, n_expose, 0, 0)
+    res.count("own-ptr-int" + tag, n_expose, n_expose, 0)
     res.analysed["ptr_to_int_or_transmute_casts" + tag] = n_expose
 
 
